@@ -769,6 +769,42 @@ func (g *HistGen) searchOpX(kind string, forceScan bool) *Op {
 	if g.r.Chance(50) || kind == "pages" {
 		op.Limit = 1 + g.r.Intn(4)
 	}
+	if kind == "query" && t.Name != "nosuchtable" && g.r.Chance(12) {
+		// an ExclusiveStartKey built by hand: a key of the table that may not be stored (the read resumes
+		// after its position), completed with the index key for a read through an index — or a malformed
+		// one (attribute missing, wrong type, index attributes missing), which must be rejected
+		sk := g.genKey(t)
+		if op.Index != "" && op.Index != "nosuchindex" {
+			has := map[string]bool{}
+			for _, kv := range sk {
+				has[string(kv.K)] = true
+			}
+			if !has[hash[0]] {
+				sk = append(sk, KV{[]byte(hash[0]), g.keyVal(hash[1], gVals)})
+			}
+			if rng != nil && !has[rng[0]] {
+				sk = append(sk, KV{[]byte(rng[0]), g.keyVal(rng[1], rangeVals)})
+			}
+		}
+		switch g.r.Intn(6) {
+		case 0:
+			sk = g.badKey(t)
+		case 1: // only the table key on an index read / one attribute short
+			if len(sk) > 1 {
+				sk = sk[:len(sk)-1]
+			} else {
+				sk = Item{{[]byte("other"), S("x")}}
+			}
+		case 2: // the last attribute with another type
+			last := &sk[len(sk)-1]
+			if last.V.T == "N" {
+				last.V = S("x")
+			} else {
+				last.V = AV{T: "N", V: []byte("5")}
+			}
+		}
+		op.StartKey = sk
+	}
 	return op
 }
 
